@@ -819,6 +819,10 @@ def vec_aperture_oracle(case, want_terms=False):
         e_at = observe_pbeam(b1)
         for k in kws:
             b1 = scalar_aperture(k, dt).track(b1)
+        if tuple(b1.survival_probabilities.shape) != (n,):
+            prob.append(f"entry {idx}: the un-vectorised aperture on the un-vectorised beam returns survival_probabilities of shape "
+                        f"{tuple(b1.survival_probabilities.shape)}, expected {(n,)}")
+            continue
         if [float(v) for v in b1.survival_probabilities] != s_out:
             prob.append(f"entry {idx}: vectorised aperture gives survival {s_out}, the un-vectorised aperture x_max={kw['x_max']!r}, "
                         f"y_max={kw['y_max']!r} gives {[float(v) for v in b1.survival_probabilities]}")
@@ -852,6 +856,8 @@ def shrink_vec_aperture(case):
             return bool(vec_aperture_oracle(c)[0])
         except Exception:
             return False
+    if not fails(case):
+        return case
     for cand in ({"where": "alone"}, {"dtype": "float64"}, {"beam_mode": "plain", "particles": None, "survival": None}):
         c2 = copy.deepcopy(case)
         c2.update(cand)
@@ -882,7 +888,10 @@ def vec_aperture_stage(run, n_cases):
     import cheetah
     for k in range(n_cases):
         case = gen_vec_aperture_case(run.rng)
-        prob, coq_cases = vec_aperture_oracle(case)
+        try:
+            prob, coq_cases = vec_aperture_oracle(case)
+        except Exception as ex:                   # an exception raised while observing the implementation is an observation
+            prob, coq_cases = [f"observing the vectorised aperture raised {ex!r}"[:300]], []
         run.add_case(["ap_vec", case], case["is_active"])
         run.count("apvec_layout_" + case["layout"])
         run.count("apvec_beam_" + case["beam_mode"])
@@ -890,7 +899,11 @@ def vec_aperture_stage(run, n_cases):
         run.count("apvec_" + case["dtype"] + "_" + case["shape"] + ("" if case["is_active"] else "_inactive"))
         if prob:
             case = shrink_vec_aperture(case)
-            bad.append({"kind": "aperture_vectorised", "case": case, "problems": vec_aperture_oracle(case)[0] or prob,
+            try:
+                prob = vec_aperture_oracle(case)[0] or prob
+            except Exception:
+                pass
+            bad.append({"kind": "aperture_vectorised", "case": case, "problems": prob,
                         "relation": "entry by entry a vectorised aperture acts like the un-vectorised aperture with that entry's half sizes: survival "
                                     "zeroed strictly outside, kept strictly inside; survival tensor of the broadcast shape; total charge and statistics per entry"})
             continue
@@ -1066,7 +1079,10 @@ def recheck(item):
     if k == "stats_vectorised":
         return vec_stats_oracle(item["case"])[0]
     if k in ("aperture_vectorised", "aperture_parameter_raises"):
-        return vec_aperture_oracle(item["case"])[0]
+        try:
+            return vec_aperture_oracle(item["case"])[0]
+        except Exception as ex:
+            return [f"observing the vectorised aperture raised {ex!r}"[:300]]
     if k == "real_lattice":
         st, prob = energy_oracle(item["lattice"], item["beam"])
         return prob
